@@ -6,8 +6,8 @@ E1  TLC, exhaustive, on the implementation-level spec spec/cvec/CVec.tla (one ac
     NoLostNoOverwrite, FinalSize, AssignedOnce, AddrStable, StorageSound, ConstructedInStorage,
     QuiescentBacked, AllocBalance, NoLeakAfterDestroy in every state of every interleaving of ALL
     programs of 2 growers x 2 operations and 3 growers x 1 operation (push or growth by 1..3 or
-    grow_to_at_least) x 3 strategies x initial sizes 0..3 (first bucket 2; thorough: also 1, and
-    3 growers with 2+2+1 operations), and Termination (every spin ends under fair scheduling).
+    grow_to_at_least) x 3 strategies x initial sizes 0..3 (quick: the 2-grower shapes with first
+    bucket 2; thorough: first bucket 1 and 2, all amounts, and 3 growers), and Termination (every spin ends under fair scheduling).
 E2  every transition of the three cover graphs (one per reallocation strategy: a trigger-index push,
     a grow_to_at_least and a range growth across a bucket boundary racing, plus a reader) is replayed
     in the real ConcurrentVector under the controlled scheduler ...
@@ -155,8 +155,8 @@ def run(ctx):
                         label='ALL programs 2 growers x 2 ops, F=2, 3 strategies, n0 0..3')
         ctx.check_model(SPEC, 'MCCVec.tla', 'MC_2x2_F1.cfg', WHAT, vacuity_exempt=ex, workers=4, timeout=3000,
                         label='ALL programs 2 growers x 2 ops, F=1, 3 strategies, n0 0..3')
-        ctx.check_model(SPEC, 'MCCVec.tla', 'MC_3x1.cfg', WHAT, vacuity_exempt=ex, workers=4, timeout=3000,
-                        heap='16g', label='ALL programs 3 growers x 1 op, F=2, 3 strategies, n0 1,3')
+        ctx.check_model(SPEC, 'MCCVec.tla', 'MC_3x1_q.cfg', WHAT, vacuity_exempt=ex, workers=4, timeout=3000,
+                        label='ALL programs 3 growers x 1 op (push | growth 2 | gtal), F=2, 3 strategies, n0 3')
 
     # E4 ------------------------------------------------------------------------------------------
     n = 6000 if thorough else 300
